@@ -133,7 +133,7 @@ func (c *c39Child) UpdateClientConnState(s balancer.ClientConnState) error {
 	c.updates++
 	return nil
 }
-func (c *c39Child) ResolverError(error)                                       {}
+func (c *c39Child) ResolverError(error)                                        {}
 func (c *c39Child) UpdateSubConnState(balancer.SubConn, balancer.SubConnState) {}
 func (c *c39Child) ExitIdle() {
 	if c.w == nil {
@@ -183,7 +183,7 @@ func (c *c39Child) Close() {
 type c39MChild struct {
 	started    bool
 	state      connectivity.State
-	picker     *c39Picker // nil: the built-in "no subconn available" picker
+	picker     *c39Picker    // nil: the built-in "no subconn available" picker
 	timer      time.Duration // absolute deadline, <0 none
 	reportedTF bool
 }
